@@ -1,7 +1,8 @@
 (* C20 (faults): wait_ok / empty_ok are invariants; after the actor dies no caller hangs and every outcome is loud or genuine. *)
 From Coq Require Import List Arith Bool Lia.
 Import ListNotations.
-From IT Require Import Runtime.Actor Runtime.Lists Runtime.ActorInv Runtime.InvDefs Runtime.InvSeq Runtime.InvFault Runtime.InvDefs2.
+From IT Require Import Runtime.Actor Runtime.Lists Runtime.ActorInv Runtime.InvDefs Runtime.InvSeq Runtime.InvFault Runtime.InvDefs2
+  Runtime.Combined.
 
 Section Fault2.
 Context {A V : Type}.
@@ -144,9 +145,10 @@ Ltac reduce_E E :=
   repeat first [ apply drop_tx_empty in E; destruct E as [? E]
                | apply slot_set_cases in E; destruct E as [[? E]|[? E]]; [discriminate E|] ].
 
-Lemma empty_step_ac m s s' : empty_ok m s -> step m s Ac = Some s' -> empty_ok m s'.
+Lemma empty_step_ac m s s' : r_drain m = true -> empty_ok m s -> step m s Ac = Some s' -> empty_ok m s'.
 Proof.
-  intros I H. cbn [Actor.step] in H. step_cases H; unfold empty_ok; cbn -[drop_tx]; try exact I.
+  intros D I H. cbn [Actor.step] in H. unfold step_actor in H. rewrite D in H. cbv iota in H.
+  step_cases H; unfold empty_ok, crash; rewrite ?D; cbn -[drop_tx]; try exact I.
   all: intros c1 E.
   all: try match type of E with context [match slot_get ?l ?c with _ => _ end] =>
          change (slot_get (drop_tx l [c]) c1 = Some SEmpty) in E end.
@@ -167,9 +169,9 @@ Proof.
   - destruct P as [<-|P]; [exfalso; apply H; reflexivity|]. exists x; split; [left; exact P|split; [reflexivity|exact Hr]].
 Qed.
 
-Lemma empty_step m s ch s' : NoDup (busy_id s ++ qids s) -> empty_ok m s -> step m s ch = Some s' -> empty_ok m s'.
+Lemma empty_step m s ch s' : r_drain m = true -> NoDup (busy_id s ++ qids s) -> empty_ok m s -> step m s ch = Some s' -> empty_ok m s'.
 Proof.
-  intros _ I H. destruct ch as [t|]; [eapply empty_step_cl | eapply empty_step_ac]; eassumption.
+  intros D _ I H. destruct ch as [t|]; [eapply empty_step_cl | eapply empty_step_ac]; eassumption.
 Qed.
 
 (* ---- after the actor died ---- *)
@@ -222,5 +224,29 @@ Proof.
   all: try (match goal with Q : meth _ _ = Some _ |- _ => destruct (loud_meth _ _ _ Ld Q) as [L1 L2] end; congruence).
   all: try (right; right; left; eexists; split; [reflexivity|eassumption]).
   all: try (right; right; right; do 3 eexists; split; [reflexivity|eassumption]).
+Qed.
+
+(* ---- every reachable state ---- *)
+Theorem empty_reachable m a0 progs sched : r_drain m = true -> empty_ok m (Actor.run sem sem_slf dv m a0 progs sched).
+Proof.
+  intros D. unfold Actor.run.
+  apply (inv_run sem sem_slf dv (fun s => empty_ok m s /\ Inv sem dv a0 m s) m).
+  - intros s ch s' (E & I) H. split; [|exact (Inv_step sem sem_slf dv a0 m s ch s' I H)].
+    destruct I as (I1 & _ & I3 & I4 & _).
+    exact (empty_step m s ch s' D (nodup_pending s I1 I3 I4) E H).
+  - split; [apply empty_init|apply Inv_init].
+Qed.
+
+Theorem wait_reachable m a0 progs sched : wait_ok m (Actor.run sem sem_slf dv m a0 progs sched).
+Proof.
+  unfold Actor.run. apply (inv_run sem sem_slf dv (wait_ok m) m (wait_step m)). apply wait_init.
+Qed.
+
+Theorem no_hang_reachable m a0 progs sched : r_drain m = true -> let s := Actor.run sem sem_slf dv m a0 progs sched in
+  alive s = false -> forall t cl, nth_error (clients s) t = Some cl -> in_call (c_pc cl) -> step m s (Cl t) <> None.
+Proof.
+  intros D s Dd t cl Hn C.
+  destruct (Inv_reachable sem sem_slf dv m a0 progs sched) as (_ & _ & _ & _ & _ & _ & _ & L). fold s in L.
+  exact (dead_no_hang m s t cl Dd L (wait_reachable m a0 progs sched) (empty_reachable m a0 progs sched D) Hn C).
 Qed.
 End Fault2.
